@@ -210,7 +210,10 @@ func (mbs *metadataPartStorage) AppendObject(ctx context.Context, bucketName sto
 		}
 
 		if existingObject != nil {
-			if versioningEnabled {
+			// A version with a generated id is never modified in place (only the
+			// null version is): the append then creates a new version that
+			// shares the existing parts, exactly as with versioning enabled.
+			if versioningEnabled || !metadatastore.IsNullVersionID(existingObject.VersionID) {
 				// The new version shares the unchanged prefix. Pre-acquiring registry
 				// references prevents a concurrent delete from condemning those parts.
 				allParts = make([]metadatastore.Part, 0, len(existingObject.Parts)+1)
